@@ -211,8 +211,24 @@ def equivalent(a, b, timeout_ms=2000, rng=None, hyp=None):
 
 
 def _is_bvish(t):
-    k = t.sort().kind()
-    return k in (z3.Z3_BV_SORT, z3.Z3_BOOL_SORT)
+    """every sub-term is bit-vector or Boolean sorted (only then may the QF_BV solver be used: it treats
+    floating-point and sequence operators as uninterpreted functions, and a 'sat' it reports for a Boolean term
+    over floats or strings is not a counterexample)"""
+    seen = set()
+    stack = [t]
+    while stack:
+        x = stack.pop()
+        i = x.get_id()
+        if i in seen:
+            continue
+        seen.add(i)
+        if x.sort().kind() not in (z3.Z3_BV_SORT, z3.Z3_BOOL_SORT):
+            return False
+        if z3.is_app(x):
+            if x.decl().kind() == z3.Z3_OP_UNINTERPRETED and x.num_args():
+                return False
+            stack.extend(x.children())
+    return True
 
 
 def is_valid(t, hyp=(), timeout_ms=2000):
